@@ -8,6 +8,7 @@ import (
 	"runtime"
 	"sync"
 	"testing"
+	"time"
 
 	"github.com/bradenaw/juniper/parallel"
 )
@@ -23,6 +24,7 @@ type parScen struct {
 	Order     []int // release order of the gated calls (indices); -1 = cancel the caller's context
 	PreCancel bool
 	Canc      map[int]bool // failing calls whose own error is context.Canceled itself (not the group's cancellation)
+	Deadline  bool         // the caller's context ends by its deadline (DeadlineExceeded) instead of being cancelled
 	Burst     bool         // the releases follow each other without a quiescence point in between (the calls finish concurrently)
 }
 
@@ -50,6 +52,7 @@ func genPar(rng *rand.Rand) parScen {
 	}
 	s.Order = rng.Perm(s.N)
 	s.Burst = rng.Intn(4) == 0
+	s.Deadline = rng.Intn(4) == 0
 	if (s.Variant == "DoContext" || s.Variant == "MapContext") && rng.Intn(4) == 0 && s.N > 0 {
 		k := rng.Intn(len(s.Order) + 1)
 		s.Order = append(s.Order[:k:k], append([]int{-1}, s.Order[k:]...)...)
@@ -99,8 +102,18 @@ func runPar(t *testing.T, s parScen) ([]Ev, bool, string) {
 			return err
 		}
 		ctx := r.Ctx(1)
+		endCaller := func() { r.Cancel(1) }
+		if s.Deadline { // a deadline context: "cancel" = the (fake) clock passes the deadline
+			dctx, dcancel := context.WithDeadline(context.Background(), time.Now().Add(time.Hour))
+			defer dcancel()
+			ctx = dctx
+			endCaller = func() {
+				r.emit(Ev{"ev": "cancel", "ctx": 1})
+				time.Sleep(time.Hour + time.Second)
+			}
+		}
 		if s.PreCancel {
-			r.Cancel(1)
+			endCaller()
 		}
 		errID := func(err error) int {
 			if err == nil {
@@ -111,6 +124,9 @@ func runPar(t *testing.T, s parScen) ([]Ev, bool, string) {
 			}
 			if err == context.Canceled {
 				return -1
+			}
+			if err == context.DeadlineExceeded {
+				return -2
 			}
 			return -99
 		}
@@ -160,7 +176,7 @@ func runPar(t *testing.T, s parScen) ([]Ev, bool, string) {
 		r.emit(Ev{"ev": "q"})
 		for _, i := range s.Order {
 			if i < 0 {
-				r.Cancel(1)
+				endCaller()
 			} else {
 				r.emit(Ev{"ev": "rel", "i": i})
 				release(i)
@@ -196,7 +212,7 @@ func TestPar(t *testing.T) {
 				if leak {
 					leaks++
 				}
-				writeRuns(w, &runs, evs, leak, msg, Ev{"variant": s.Variant, "n": s.N, "p": s.P, "gmp": runtime.GOMAXPROCS(-1)})
+				writeRuns(w, &runs, evs, leak, msg, Ev{"variant": s.Variant, "n": s.N, "p": s.P, "gmp": runtime.GOMAXPROCS(-1), "deadline": b2i(s.Deadline)})
 			}
 		}
 		w.close()
@@ -209,8 +225,15 @@ func TestPar(t *testing.T) {
 		if leak {
 			leaks++
 		}
-		writeRuns(w, &runs, evs, leak, msg, Ev{"variant": s.Variant, "n": s.N, "p": s.P, "gmp": runtime.GOMAXPROCS(-1)})
+		writeRuns(w, &runs, evs, leak, msg, Ev{"variant": s.Variant, "n": s.N, "p": s.P, "gmp": runtime.GOMAXPROCS(-1), "deadline": b2i(s.Deadline)})
 	}
 	w.close()
 	report(Ev{"engine": "bubble", "subject": "par", "runs": runs, "events": w.n, "leaks": leaks})
+}
+
+func b2i(b bool) int {
+	if b {
+		return 1
+	}
+	return 0
 }
